@@ -147,6 +147,30 @@ def colliding_paths(order, n, prefix="c", bucket=None, start=0):
     return out
 
 
+_CLUSTER = {}
+
+
+def cluster_paths(order, first, nbuckets, per, prefix="q"):
+    """`per` paths for each of `nbuckets` consecutive home buckets starting at `first` (modulo the table size): a dense run
+    of occupied slots in which insertions have to displace entries (hopscotch find-closer-entry)"""
+    k = (order, first, nbuckets, per, prefix)
+    if k not in _CLUSTER:
+        size = 1 << order
+        want = {(first + i) % size: [] for i in range(nbuckets)}
+        missing = nbuckets
+        i = 0
+        while missing:
+            s = "%s%d" % (prefix, i)
+            i += 1
+            l = want.get(string_hash(s, order))
+            if l is not None and len(l) < per:
+                l.append(s)
+                if len(l) == per:
+                    missing -= 1
+        _CLUSTER[k] = [x for b in sorted(want) for x in want[b]]
+    return _CLUSTER[k]
+
+
 # ----------------------------------------------------------------------
 class Elem:
     __slots__ = ("path", "owner", "is_state", "value", "fetch_only", "timeout", "groups")
